@@ -14,8 +14,10 @@ ASSUMPTIONS = [
     "formula meaning in the theorems is an arbitrary function of the precedents' values; in the "
     "differential run it is the concrete language of coq/Model/GraphExpr.v (operators through the C10 "
     "operator model, aggregates through the generated C14 functions)",
-    "workbooks are single-sheet, cells in one column, ranges are contiguous blocks; unbounded ranges, "
-    "defined names and CSE arrays are exercised by C05/C13, not here",
+    "workbooks are single-sheet; cells in one column, ranges are contiguous blocks - plus, in the unb streams, a "
+    "second column of constants with the whole-column reference S!B:B (a node of range kind, alias of the bounded "
+    "range node: Model/GraphExpr.v FAlias, Proofs/C01Alias.v); row references (1:1), references that span "
+    "several columns, defined names and CSE arrays are exercised by C05/C13, not here",
     "openpyxl, networkx and the xlsx reader are not modelled: the stored-results configuration reads "
     "real .xlsx files whose cached values were injected into the sheet XML",
 ]
@@ -38,7 +40,15 @@ def _blank_result(case):
 
 
 STREAMS = ['clean', 'clean', 'clean', 'clean', 'clean', 'loaded', 'stored_clean', 'stored',
-           'none', 'eqtype', 'blankres', 'stored_partial']
+           'none', 'eqtype', 'blankres', 'stored_partial', 'unb', 'unb_stored', 'unb_loaded']
+
+# the 'unb' streams: two-column workbooks of harness/wbgen.py (gen_workbook(colb=True)) - constants in column B,
+# the whole-column reference S!B:B (a node of range kind in the model: alias of the bounded range node S!B1:Bm,
+# Model/GraphExpr.v FAlias) and the explicit ranges of column B read by formulas of column A - in the three
+# configurations; writes go to the inputs of both columns (blank writes into column B included), every node
+# is evaluated, S!B:B and S!B1:Bm themselves included; value, cache snapshot (the reference node's cached value)
+# and built set are compared with the model after every operation
+CONFIG = {'unb': 'clean', 'unb_stored': 'stored_clean', 'unb_loaded': 'loaded'}
 
 
 def fresh_value(wb, inputs, idx):
@@ -61,6 +71,8 @@ def trim(v):
 def make_compiler(ctx, wb, stream, k):
     """Returns (compiler, model prefix ops, stored dict)."""
     from pycel import ExcelCompiler
+    unb = stream in CONFIG
+    stream = CONFIG.get(stream, stream)
     if stream in ('stored', 'stored_clean', 'stored_partial'):
         ref = ExcelCompiler(excel=wb.to_openpyxl())
         results = {i: ref.evaluate(wb.nodes[i]['addr']) for i in wb.formulas()}
@@ -75,7 +87,14 @@ def make_compiler(ctx, wb, stream, k):
         prefix = []
         if stream in ('stored_clean', 'stored_partial'):
             # every cell is in the model before the first write
-            for i in range(len(wb.nodes)):
+            first = list(range(len(wb.nodes)))
+            if unb:
+                # only the cells, in a random order: the range nodes and the reference node S!B:B enter the model
+                # as precedents (they get their value when the graph is built: repair f35c77a; the explicit range
+                # B1:Bm built before or after the whole-column reference: repair b9ea5fb)
+                first = wb.cells()
+                ctx.rng.shuffle(first)
+            for i in first:
                 comp.evaluate(wb.nodes[i]['addr'])
                 prefix.append([0, i])
         return comp, prefix, results
@@ -103,15 +122,23 @@ def run(ctx):
         "nested ranges) x histories of 8-14 evaluate/set_value operations chosen while the implementation runs "
         "(writes only to cells present in the cell map) x configurations {no-data workbook, xlsx with stored "
         "results, model loaded from yml/json/pkl}; streams: clean (no blank writes, no ==-equal writes, no blank "
-        "formula results) and one stream per known defect trigger; distinct = distinct (workbook, history)")
-    nwb = ctx.n(1400, 20000)
+        "formula results) and one stream per known defect trigger; unb / unb_stored / unb_loaded: two-column "
+        "workbooks (constants and trailing blanks in column B; formulas of column A over the whole column B:B, "
+        "the explicit range B1:Bm it stands for, smaller blocks and single cells of column B) in the three "
+        "configurations, the reference node S!B:B and the range nodes evaluated and snapshot like every other "
+        "node; distinct = distinct (workbook, history)")
+    nwb = ctx.n(1750, 25000)
     batch = []       # (case meta, model call)
     os.makedirs(ctx.work, exist_ok=True)
     for k in range(nwb):
         stream = STREAMS[k % len(STREAMS)]
         pool = wbgen.POOL if stream in ('none', 'eqtype') else wbgen.CLEAN_POOL
-        wb = wbgen.gen_workbook(rng, ncells=rng.randrange(5, 11), pool=pool,
-                                blank_results=(stream == 'blankres'))
+        unb = stream in CONFIG
+        if unb:
+            wb = wbgen.gen_workbook(rng, ncells=rng.randrange(4, 9), pool=pool, colb=True)
+        else:
+            wb = wbgen.gen_workbook(rng, ncells=rng.randrange(5, 11), pool=pool,
+                                    blank_results=(stream == 'blankres'))
         if stream == 'blankres':
             # a range whose first cell is blank, read whole by a formula, with a dependant
             wb = wbgen.WB()
@@ -145,6 +172,9 @@ def run(ctx):
                     old = inputs[a]
                     alt = {0: False, False: 0, 1: True, True: 1}.get(old) if isinstance(old, (int, bool)) else None
                     v = alt if alt is not None and rng.random() < 0.6 else rng.choice([0, 1, True, False, 2, 'b'])
+                elif (unb and wb.nodes[a].get('col') == 2 and a not in wb.pinned and inputs[a] is not None
+                      and rng.random() < 0.2):
+                    v = None        # a member of the whole-column range becomes blank
                 else:
                     v = rng.choice([x for x in wbgen.CLEAN_POOL if not same_py(x, inputs[a])])
                 try:
@@ -161,6 +191,9 @@ def run(ctx):
                 impl_trace.append((None, wbgen.snapshot(comp, wb)))
             else:
                 n = rng.randrange(len(wb.nodes))
+                if unb and rng.random() < 0.7:
+                    # not the constants of column B: formulas, ranges, the reference node, column-A inputs
+                    n = rng.choice([i for i, x in enumerate(wb.nodes) if not (x['kind'] == 'input' and x.get('col') == 2)])
                 if pending is not None and rng.random() < 0.6:
                     n = rng.choice([pending] + sorted(wb.descendants(pending)))
                 pending = None
@@ -219,7 +252,8 @@ def run(ctx):
 
 
 def unbounded_stream(ctx):
-    """Oracle-only (unbounded ranges are not in Model/Graph.v): data in column A, formulas in columns B/C
+    """Oracle-only (older than the model-backed unb streams above; kept: formulas in several columns, float data,
+    formulas that read other formulas over A:A): data in column A, formulas in columns B/C
     over A:A and over row ranges holding only data; histories of writes to members and evaluations; every
     evaluate must equal a from-scratch compile (repair 347fec5: the A:A reference had no graph edge)."""
     import openpyxl
